@@ -218,12 +218,6 @@ def parseArgStr (s : String) : Option Arg :=
 
 def handle (op : String) (args : List String) : Option String :=
   match op, args with
-  | "convert", [t, j] => do
-    let t ← parseTypeStr t
-    let j ← parseJStr j
-    match convert t j with
-    | some e => pure ("some " ++ join (showExp e))
-    | none => pure "none"
   | "encode", [e] => do
     let e ← parseExpStr e
     pure (join (showJ (encode e)))
@@ -236,10 +230,6 @@ def handle (op : String) (args : List String) : Option String :=
       pure ("some " ++ showArg a ++ " | " ++ boolStr (dataOfBinding a).1 ++ " "
         ++ join (showJ (dataOfBinding a).2) ++ " | " ++ boolStr a.printable)
     | none => pure "none"
-  | "wt", [t, e] => do
-    let t ← parseTypeStr t
-    let e ← parseExpStr e
-    pure (boolStr (wt t.base t.arrayDim t.mapDim e) ++ " " ++ boolStr (intsOk e))
   | "jwt", [t, j] => do
     -- JSON-side typing (hypothesis of convert_wt) and the well-typedness of the conversion
     let t ← parseTypeStr t
